@@ -124,3 +124,39 @@ Theorem C14_json_reloaded_same_result_partial :
       (forall base, sub conv rem_order add_order d' base = sub conv rem_order add_order d base).
 Proof. exact json_reloaded_same_result. Qed.
 Print Assumptions C14_json_reloaded_same_result_partial.
+
+(** * On the BYTES of the dump (Pickle/Bytes.v) *)
+From DD Require Import Pickle.Bytes Pickle.BytesProofs Pickle.BytesDeltaProofs.
+
+(* the canonical dump as a byte string - protocol 4, one frame - is read by the C unpickler's byte layer
+   (opcode bytes, little-endian counts, UTF-8, two's complement LONG1, IEEE doubles, the frame buffer) into
+   exactly the opcodes it stands for, without skipping a byte, whatever follows it *)
+Theorem C14_bytes_dump_decodes : forall (t : textw) (v : pv) junk, dump_ok v = true ->
+  bdecode (c_dialect t) (dump_bytes v ++ junk) = (dump_prog v, DStop, false).
+Proof. exact bdecode_dump. Qed.
+Print Assumptions C14_bytes_dump_decodes.
+
+(* pickle_load(dump bytes) = the payload *)
+Theorem C14_bytes_pickle_roundtrip : forall (w : world) (t : textw) (v : pv) junk,
+  calls_ok w -> types_ok w v -> wfp v = true -> dump_ok v = true ->
+  load_bytes w (c_dialect t) (dump_bytes v ++ junk) = Some v.
+Proof. exact load_bytes_dump. Qed.
+Print Assumptions C14_bytes_pickle_roundtrip.
+
+(* the property on bytes: the delta read back from the bytes of its dump - also when the dump is followed by
+   other bytes in the file - gives the same result as the original on EVERY base *)
+Theorem C14_bytes_reloaded_delta_same_result :
+  forall conv rem_order add_order (w : world) (t : textw) (d : delta) junk,
+  calls_ok w -> types_ok w (pv_of_delta d) -> wfp (pv_of_delta d) = true -> delta_ok d ->
+  dump_ok (pv_of_delta d) = true ->
+  exists d', reload_bytes w (c_dialect t) (d_bidir d) (dump_bytes (pv_of_delta d) ++ junk) = Some d' /\
+    (forall base, apply conv rem_order add_order d' base = apply conv rem_order add_order d base) /\
+    (forall base, sub conv rem_order add_order d' base = sub conv rem_order add_order d base).
+Proof. intros conv ro ao. exact (reloaded_bytes_same_result conv ro ao). Qed.
+Print Assumptions C14_bytes_reloaded_delta_same_result.
+
+(* one clause of dump_ok in closed form: every half-integer float below 2^53 in magnitude survives its 8 bytes *)
+Theorem C14_bytes_half_floats_roundtrip : forall t : Z, (Z.abs t < 2 ^ 53)%Z ->
+  (bits_of_half t < 2 ^ 64)%N /\ fl_of_bits (bits_of_half t) = FHalf t.
+Proof. exact fl_of_bits_of_half. Qed.
+Print Assumptions C14_bytes_half_floats_roundtrip.
